@@ -81,8 +81,12 @@ def diam(chains):
     return d if d > 0 else 1.0
 
 
-def closed_by_value(chain):
-    """End of every segment equals (==, same type) the start of the next."""
+def closed_by_value(chain, tol=None):
+    """End of every segment equals the start of the next (bitwise, or within `tol`; default:
+    the library's own point equality 1e-9 for polygons, 2e-4 for chains with curved segments,
+    whose pieces the library degree-reduces with re-fitted end points)."""
+    if tol is None:
+        tol = 1e-9 if all(len(s) == 2 for s in chain) else 2e-4
     n = len(chain)
     if n == 0:
         return False
@@ -93,7 +97,7 @@ def closed_by_value(chain):
             continue
         # two distinct point objects at a junction (a degree-reduced segment gets re-fitted end
         # points): closed within the library's own point equality (1e-9)
-        if abs(float(a[0]) - float(b[0])) > 1e-9 or abs(float(a[1]) - float(b[1])) > 1e-9:
+        if abs(float(a[0]) - float(b[0])) > tol or abs(float(a[1]) - float(b[1])) > tol:
             return False
     return True
 
